@@ -10,7 +10,7 @@ from . import build
 from .proto import Case, parse_output
 
 WORK = os.path.join(build.VERIF, ".work")
-MODELLED_KINDS = {"kzg10", "c16"}   # case kinds for which the extracted model must answer
+MODELLED_KINDS = {"kzg10", "c16", "c13"}   # case kinds for which the extracted model must answer
 MODELLED_PC_SCHEMES = {"marlin"}
 
 
@@ -99,7 +99,7 @@ class Engine:
         lines = out.split("\n")
         return [lines[i].split() for i in range(len(requests))]
 
-    def compare(self, cases, lib, model, obs_filter=None):
+    def compare(self, cases, lib, model, obs_filter=None, comparators=None):
         """-> list of diffs: dict(case, name, lib, model)"""
         diffs = []
         reqs = []
@@ -131,6 +131,9 @@ class Engine:
                 if ty in ("G1", "G2") or ty.startswith("V:"):
                     reqs.append((ty, mt))
                     where.append((c.id, name, lt))
+                elif comparators and name.split(".")[0] in comparators:
+                    if not comparators[name.split(".")[0]](lt, mt):
+                        diffs.append({"case": c.id, "name": name, "lib": " ".join(lt), "model": " ".join(mt)})
                 elif mt != lt:
                     diffs.append({"case": c.id, "name": name, "lib": " ".join(lt), "model": " ".join(mt)})
         conv = self.conv(reqs)
@@ -139,8 +142,8 @@ class Engine:
                 diffs.append({"case": cid, "name": name, "lib": " ".join(lt), "model": " ".join(hexes)})
         return diffs, compared
 
-    def run_all(self, cases, obs_filter=None):
+    def run_all(self, cases, obs_filter=None, comparators=None):
         lib = self.run_harness(cases)
         model = self.run_runner(cases, lib)
-        diffs, compared = self.compare(cases, lib, model, obs_filter)
+        diffs, compared = self.compare(cases, lib, model, obs_filter, comparators)
         return lib, model, diffs, compared
